@@ -374,3 +374,88 @@ def sample_traces(traces, k=2, maxev=12):
                 break
         out.append(cur)
     return out
+
+
+# --------------------------------------------------------------------------- conform mode (TraceFlw.tla)
+CONF_OPS = {"Start", "Log", "Trigger", "Flush", "Stop", "Adv", "ExtRemove"}
+
+
+def conformable(s):
+    """Is the scenario inside the domain of TraceFlw.tla (the part of the file writer that Flw.tla specifies
+    step by step)?"""
+    c = s.get("cfg", {})
+    if c.get("mode", "direct") not in ("direct", "buf") or c.get("crlf") or c.get("bg") or c.get("via", "logger") != "logger":
+        return False
+    if c.get("use_ts") or "." in str(c.get("suffix", "")) or c.get("addw") or s.get("resume") or s.get("virt") is False:
+        return False
+    if c.get("naming") in ("TsC", "TsCD") and c.get("fmt") not in (None, "r%Y-%m-%d_%H-%M-%S", "r%Y-%m-%d_%H-%M", "r%Y%m%d-%H%M%S",
+                                                                      "r%Y-%m-%d_%H", "r%Y-%m-%d"):
+        return False
+    if c.get("rot", True) and c.get("size", -1) < 0 and not c.get("age"):
+        pass
+    for st in s.get("steps", []):
+        if st.get("op") not in CONF_OPS:
+            return False
+        if st.get("op") == "Log" and (st.get("msg") is not None or st.get("target") is not None or st.get("lvl")):
+            return False
+        if st.get("op") == "ExtRemove" and st.get("which") == "cur":
+            pass
+    # the environment removes files only between runs in Flw.tla
+    live = False
+    for st in s.get("steps", []):
+        if st["op"] == "Start":
+            live = True
+        elif st["op"] == "Stop":
+            live = False
+        elif st["op"] == "ExtRemove" and live:
+            return False
+    return True
+
+
+def conform(traces, wd, max_rounds=6):
+    """Runs TraceFlw over the traces: every event of a conformable scenario must be explained by the corresponding
+    action of Flw.tla with equal projected state. Returns dict(scenarios, events, drifts=[(sc, n, ev)])."""
+    import concurrent.futures
+    cfgp = os.path.join(SPEC, "TraceFlw.cfg")
+
+    def one(ix_tf):
+        ix, tf = ix_tf
+        drifts = []
+        lines = open(tf).readlines()
+        nsc = sum(1 for x in lines if '"ev":"Begin"' in x and '"conf":true' in x)
+        nev = 0
+        on = False
+        for x in lines:
+            if '"ev":"Begin"' in x:
+                on = '"conf":true' in x
+            elif on:
+                nev += 1
+        if nsc == 0:
+            return 0, 0, []
+        cur = tf
+        for rnd in range(max_rounds):
+            res = run_tlc("TraceFlwMC.tla", cfgp, os.path.join(wd, f"conf-meta-{ix}-{rnd}"), workers=1, timeout=1200,
+                          env={"TRACE": cur}, xmx="3g")
+            consumed = 0
+            for tag, rest in res["printed"]:
+                if tag == "CONSUMED":
+                    consumed = int(re.findall(r"\d+", rest)[0])
+            if consumed == len(lines):
+                break
+            bad = res["depth"]          # states = consumed lines + 1; line number `depth` is the unexplained one
+            if bad < 1 or bad > len(lines):
+                raise ToolError(f"conform mode: cannot locate the unexplained event ({tf}, depth {bad})")
+            e = json.loads(lines[bad - 1])
+            drifts.append((e.get("sc"), e.get("n"), e.get("ev")))
+            # take the scenario out of the domain and go on
+            for j in range(bad - 1, -1, -1):
+                if '"ev":"Begin"' in lines[j]:
+                    lines[j] = lines[j].replace('"conf":true', '"conf":false')
+                    break
+            cur = tf + f".conf{rnd}"
+            open(cur, "w").writelines(lines)
+        return nsc, nev, drifts
+
+    with concurrent.futures.ThreadPoolExecutor(max_workers=max(1, len(traces))) as ex:
+        rs = list(ex.map(one, enumerate(traces)))
+    return {"scenarios": sum(r[0] for r in rs), "events": sum(r[1] for r in rs), "drifts": [d for r in rs for d in r[2]]}
